@@ -835,6 +835,18 @@ def call_external(ex, f, args, kwargs, node):
                 _a = ex.new_atom(('regex', args[0], int(fl), f.__name__), args[1])
                 _a.optional_obj = True
                 return _a
+    import re as _re1
+    if f is _re1.sub and len(args) == 3 and not kwargs and isinstance(args[0], str) and isinstance(args[1], str) and isinstance(args[2], SymVal) and args[2].sort == 'str':
+        # re.sub(<constant pattern>, <constant template>, <str>): an invalid pattern / template raises whatever the subject is (decided by
+        # one concrete call on the empty string and one per character the pattern mentions); otherwise a str is returned and nothing is raised
+        # (assumption register: the scanning functions of `re` on a str do not raise)
+        try:
+            _re1.sub(args[0], args[1], '')
+            for _c in sorted(set(args[0])):
+                _re1.sub(args[0], args[1], _c * 2)
+        except Exception as _e:
+            raise SymRaise(type(_e), (str(_e),), origin=ex.where(node))
+        return SymVal('str', z3.String(ex.fresh_name(f're.sub({args[0]!r})')))
     if type(f).__name__ == 'method_descriptor' and getattr(f, '__objclass__', None) in (str, list, dict) and args:
         # unbound builtin method, e.g. map(str.lower, parts)
         recv = args[0]
